@@ -810,12 +810,12 @@ class MatrixATADSolver:
         Returns:
            Relative residual of solution.
         """
-        if b.ndim == 1:
-            D = self.D
+        if self.D.ndim == 1:
+            Dx = (self.D if b.ndim == 1 else self.D[:, snp.newaxis]) * x
         else:
-            D = self.D[:, snp.newaxis]
+            Dx = self.D @ x
         assert isinstance(self.W, Array)
-        return rel_res(self.A.T.conj() @ (self.W[:, snp.newaxis] * self.A) @ x + D * x, b)
+        return rel_res(self.A.T.conj() @ (self.W[:, snp.newaxis] * self.A) @ x + Dx, b)
 
 
 class ConvATADSolver:
